@@ -21,9 +21,9 @@ CHECKS = {
    note="Trusts: scaled trim/lock depths; zone-order branch blocks only (region/prime reorganisations are not driven); lockup-contract activity on branches is exercised by C13, not here. Address index compared as sets of outpoints per address.",
    design="2/C10"),
  "C06": dict(
-   technique="exhaustive enumeration of block-content words on real nodes; per block repeated/cold/cross-backend execution compared; commitment oracle by full DB scan after every accepted block",
-   text="For every word of block contents up to length 2 (thorough 3) after a 14-block prefix (conversion, inbound ETXs, Qi outputs, trimmable output) every block is processed by the real StateProcessor three times warm and once on a cold replica started from a copy of the databases before it is appended (all outputs equal), after acceptance the MuHash is recomputed from a scan of the ut/cl prefixes and compared with header root, stored multiset and stored size and the state is reopened at the header roots, and the whole history is replayed on leveldb- and pebble-backed zone nodes (same verdicts and canonical projection).",
-   note="Trusts: scaled constants. Map-iteration-order and scheduler independence are only sampled by the repeated runs here (the trimming goroutines are explored separately when the scheduler part is built). Known finding: spend-at-trim-height double removal (known_findings.json).",
+   technique="exhaustive enumeration of block-content words on real nodes with repeated/cold/cross-backend execution and a full-scan commitment oracle; stateless schedule exploration (iterative preemption bounding, then unbounded) of the real trimming goroutines under a controlled scheduler",
+   text="For every word of block contents up to length 2 (thorough 3) after a 14-block prefix (conversion, inbound ETXs, Qi outputs, trimmable output) every block is processed by the real StateProcessor three times warm and once on a cold replica started from a copy of the databases before it is appended (all outputs equal), after acceptance the MuHash is recomputed from a scan of the ut/cl prefixes and compared with header root, stored multiset and stored size and the state is reopened at the header roots, and the whole history is replayed on leveldb- and pebble-backed zone nodes (same verdicts and canonical projection). (trim-schedules) In a second binary whose copy of core/headerchain_validation.go imports a cooperative-scheduler shim instead of sync (only the import and the map range over TrimDepths are rewritten, from the current working tree), ALL interleavings of the real Process call on a block that trims six outputs with three concurrent goroutines are executed - preemption bounds 0,1,2 under two spawn orders, then unbounded (about 4 000 schedules) - and multiset hash, set size, all other outputs and the set of deleted keys are identical in every schedule; no schedule deadlocks.",
+   note="Trusts: scaled constants; the scheduler sees Lock/Unlock/Done/Wait of the rewritten file only (unsynchronised accesses between them are the business of the race detector, not of this explorer); idle trimming goroutines are removed from the scenario by shrinking TrimDepths to the three active denominations. Known finding: spend-at-trim-height double removal (known_findings.json).",
    design="2/C06"),
  "C11": dict(
    technique="crash-prefix enumeration: every prefix of the global write log (puts, deletes, atomic batches on prime/region/zone DBs) of a multi-level history with a reorg is materialised, restarted with the real NewSlice and continued; differential oracle against the uncrashed node",
